@@ -8,6 +8,7 @@ import (
 	"fmt"
 	"testing"
 
+	"github.com/alicebob/miniredis/v2"
 	"github.com/gotid/god/internal/verifdrv"
 	"github.com/gotid/god/lib/conf"
 	"github.com/gotid/god/lib/hash"
@@ -25,9 +26,13 @@ func TestVerifDriverC13(t *testing.T) {
 			Keys    []string `json:"keys"`
 			Loaded  string   `json:"loaded"` // "", "json", "yaml": the configuration goes through the conf loader
 			Omit    []bool   `json:"omit"`   // loaded: node i carries no Weight entry (weights[i] is the documented default)
+			Kind    string   `json:"kind"`
 		}
 		if err := json.Unmarshal(raw, &c); err != nil {
 			return map[string]any{"error": err.Error()}
+		}
+		if c.Kind == "twin" {
+			return verifTwin(c.Weights, c.Keys)
 		}
 		conf := make(ClusterConfig, len(c.Weights))
 		index := map[string]int{}
@@ -63,6 +68,10 @@ func TestVerifDriverC13(t *testing.T) {
 			}
 		}
 		built := New(conf, syncx.NewSingleFlight(), NewStat("verif"), errors.New("verif not found"))
+		// a second service instance built from the same configuration
+		builtB := New(conf, syncx.NewSingleFlight(), NewStat("verif-b"), errors.New("verif not found"))
+		clB, _ := builtB.(cluster)
+		gotB := make([]int, len(c.Keys))
 		got := make([]int, len(c.Keys))
 		want := make([]int, len(c.Keys))
 		cl, isCluster := built.(cluster)
@@ -71,7 +80,14 @@ func TestVerifDriverC13(t *testing.T) {
 			if v, ok := ref.Get(k); ok {
 				want[i] = index[v.(string)]
 			}
-			got[i] = -1
+			got[i], gotB[i] = -1, -1
+			if isCluster {
+				if v, ok := clB.dispatcher.Get(k); ok {
+					gotB[i] = index[v.(node).rds.Addr]
+				}
+			} else {
+				gotB[i] = 0
+			}
 			if !isCluster {
 				got[i] = 0 // a single configured node: New returns that node itself
 				if len(c.Weights) == 1 {
@@ -83,7 +99,7 @@ func TestVerifDriverC13(t *testing.T) {
 				got[i] = index[v.(node).rds.Addr]
 			}
 		}
-		return map[string]any{"got": got, "ref": want, "cluster": isCluster, "loaded_weights": loadedWeights}
+		return map[string]any{"got": got, "ref": want, "cluster": isCluster, "loaded_weights": loadedWeights, "gotb": gotB}
 	})
 }
 
@@ -114,4 +130,54 @@ func verifLoadClusterConf(format string, hosts []string, weights []int, omit []b
 	}
 	text += "]}"
 	return conf.LoadFromJsonBytes([]byte(text), v)
+}
+
+// verifTwin (property C13): two clusters built from the same configuration over the same miniredis servers (two
+// service instances). Every key is written through instance A and read through instance B, and located on the
+// servers: placement must depend on the configuration only.
+func verifTwin(weights []int, keys []string) any {
+	servers := make([]*miniredis.Miniredis, len(weights))
+	conf := make(ClusterConfig, len(weights))
+	for i, w := range weights {
+		s, err := miniredis.Run()
+		if err != nil {
+			panic(err)
+		}
+		defer s.Close()
+		servers[i] = s
+		conf[i] = NodeConfig{Config: redis.Config{Host: s.Addr(), Type: redis.NodeType}, Weight: w}
+	}
+	notFound := errors.New("verif not found")
+	a := New(conf, syncx.NewSingleFlight(), NewStat("verif-a"), notFound)
+	b := New(conf, syncx.NewSingleFlight(), NewStat("verif-b"), notFound)
+	where := func(k string) int {
+		at := -1
+		for j, s := range servers {
+			if s.Exists(k) {
+				at = j
+			}
+		}
+		return at
+	}
+	gotA := make([]int, len(keys))
+	gotB := make([]int, len(keys))
+	missing := 0
+	for i, k := range keys {
+		gotA[i], gotB[i] = -1, -1
+		if err := a.Set(k, "va-"+k); err == nil {
+			gotA[i] = where(k)
+		}
+		var v string
+		if err := b.Get(k, &v); err != nil || v != "va-"+k {
+			missing++
+		}
+		// where instance B places the key: delete A's copy, write through B
+		for _, s := range servers {
+			s.Del(k)
+		}
+		if err := b.Set(k, "vb-"+k); err == nil {
+			gotB[i] = where(k)
+		}
+	}
+	return map[string]any{"got": gotA, "gotb": gotB, "ref": gotA, "missing": missing, "cluster": true}
 }
